@@ -8,6 +8,8 @@ Parts
            and nothing is raised.
   faults   valid sidecars built from individually valid annotation strings (all small column layouts) -> no error issue;
            the same with exactly one injected structural fault -> an error-severity issue with the code of the broken rule.
+           The reserved column name HED is injected both by renaming a column and as an added top-level entry whose value
+           ranges over every JSON type (object, string, number, list, null, boolean).
 The expected codes come from the property statement / the HED specification (SIDECAR_INVALID, PLACEHOLDER_INVALID,
 SIDECAR_BRACES_INVALID; type faults may also carry the library's own type codes).
   definitions  valid sidecars with a definitions column ('#' tag of the definition at depth 1, 2, 3 of its content) and uses
@@ -294,6 +296,24 @@ def faults_for(base_names):
                 [name] + hosts
 
 
+HED_NAME_VALUES = [{"HED": {"a": "Green"}}, {"HED": "Label/#"}, {"Description": "annotations"}, {"Levels": {"a": "b"}}, {}, {"HED": {}},
+                   "Green", "", "Label/#", "n/a", 5, 0, 2.5, ["Green"], [], [{"HED": "Red"}], None, True, False]
+
+
+def hed_name_faults(base_names, k=0):
+    """the reserved name HED used as a top-level entry of an otherwise valid sidecar, its value ranging over every JSON type
+    (objects with / without annotations, strings, numbers, lists, null, booleans), first / in the middle / last"""
+    doc0 = {n: copy.deepcopy(COLUMNS[n]) for n in base_names}
+    if "HED" in referenced(doc0):
+        return          # {HED} refers to the HED column of the events table: a sidecar entry of that name changes its meaning as well
+    for vi, value in enumerate(HED_NAME_VALUES):
+        for pos in sorted({0, len(base_names) // 2, len(base_names)}):
+            names = list(base_names)
+            names.insert(pos, "HED")
+            doc = {n: (copy.deepcopy(value) if n == "HED" else copy.deepcopy(doc0[n])) for n in names}
+            yield L_F_HEDNAME, "entry HED := %s at position %d" % (json.dumps(value), pos), doc, ["HED"]
+
+
 def error_issues(issues):
     from hed.errors.error_types import ErrorSeverity
     return [i for i in issues if i.get("severity") == ErrorSeverity.ERROR]
@@ -573,12 +593,21 @@ def run(w: Workload):
     for base in bases(w.quick):
         for clause, desc, doc, involved in faults_for(base):
             fitems.append(("fault", clause, desc, doc, involved))
+    n_named = 0
+    for bi, base in enumerate(bases(w.quick)):
+        if w.quick and len(base) > 2 and bi % 3:
+            continue
+        for clause, desc, doc, involved in hed_name_faults(base):
+            fitems.append(("fault", clause, desc, doc, involved))
+            n_named += 1
     n = _absorb(w, _par(fitems, 20), counters, "fault", fitems)
     per_rule = {}
     for it in fitems:
         per_rule[it[1]] = per_rule.get(it[1], 0) + 1
     w.part("faults", cases=n, bound="every applicable (layout, column, fault variant): type faults (6 wrong types for HED and for "
-           "each category value), placeholder count (0, 2 in value; 1 in category), HED as column name, n/a key (added / renamed), "
+           "each category value), placeholder count (0, 2 in value; 1 in category), HED as column name (a column renamed to HED; "
+           f"{n_named} documents with an added top-level entry named HED whose value is each of {len(HED_NAME_VALUES)} JSON values "
+           "- objects, strings, numbers, lists, null, booleans - first / middle / last), n/a key (added / renamed), "
            "9 unbalanced-brace shapes, unknown / ignored-column / self / nested reference", exhaustive=True, per_rule=per_rule)
     dvalid, dfaulty, dstrings = def_docs(w.quick)
     preconditions(w, dstrings)
